@@ -716,6 +716,14 @@ func init() {
 			A := int(inst>>18) & 0xff //GETA
 			RA := lbase + A
 			Sbx := int(inst&0x3ffff) - opMaxArgSbx //GETSBX
+			// initial value, limit and step are converted with tonumber (reference manual 2.4.5)
+			for i := 0; i < 3; i++ {
+				if s, ok := reg.Get(RA + i).(LString); ok {
+					if n, err := parseNumber(string(s)); err == nil {
+						reg.Set(RA+i, n)
+					}
+				}
+			}
 			if init, ok1 := reg.Get(RA).(LNumber); ok1 {
 				if step, ok2 := reg.Get(RA + 2).(LNumber); ok2 {
 					// +inline-call reg.SetNumber RA LNumber(init-step)
